@@ -170,4 +170,4 @@ def run(ctx, prog, rule="R-NUL", only_files=None):
                                "length: %s" % (sk, what.replace("ArduinoJson::detail::", "").replace("ArduinoJson::", ""), fn.text(at)))
                 else:
                     ctx.ob(rule, inst, None, fn.loc(at), "use of %s not understood: %s" % (sk, what))
-    ctx.floor(rule, "sized-string pointer sources", n, 40)
+    ctx.floor(rule, "sized-string pointer sources", n, 40 if not only_files else 3)
